@@ -28,6 +28,7 @@ fn tok_profile(profile: &str, seed: u64, n: usize, out: &mut dyn Write) {
             "nul" => cfg.nul_in_sentence = true,
             "c11" => cfg.big_homographs = true,
             "c07tok" => cfg.kind = Some(1 + rng.below(2) as u8),
+            "c01" => cfg.kind = if rng.chance(1, 3) { None } else { Some(0) },
             "mixed" => cfg.kind = None,
             _ => {}
         }
@@ -185,6 +186,16 @@ fn tok_profile(profile: &str, seed: u64, n: usize, out: &mut dyn Write) {
                     wops.extend([WOp::Reset(s), WOp::Tokenize, WOp::QueryTokens, WOp::Lattice]);
                 }
                 _ => {
+                    // one third of the cases carry a user lexicon (and sometimes an id mapping)
+                    if crng.chance(1, 3) {
+                        let mut pool = d.surfaces.clone();
+                        let nrows = 1 + crng.below(4);
+                        let csv = gen::gen_lex_rows(&mut crng, nrows, d.num_left, d.num_right, 40, !cfg.space_pre, &mut pool);
+                        dops.push(DOp::User(csv.into_bytes()));
+                        if crng.chance(1, 3) {
+                            dops.push(DOp::Map(gen_perm(&mut crng, d.num_left), gen_perm(&mut crng, d.num_right)));
+                        }
+                    }
                     let s = gen_sentence(&mut crng, &d, &cfg, 7);
                     wops.extend([WOp::Reset(s), WOp::Tokenize, WOp::QueryTokens, WOp::Lattice]);
                 }
